@@ -446,3 +446,12 @@ package logqlengine
 //@ func (*LabelSet).String
 //@   trusted
 //@   modifies nothing
+
+//@ func (*sampleIterator).Close
+//@   capture c = call(i.iter.Close, 0)
+//@   modifies opened(), holds(i.iter)
+//@   ensures[closes-source] c_called && ret0 == c_r0 && opened() == old(opened()) - old(holds(i.iter)) && holds(i.iter) == 0
+//@ func (*sampleIterator).Err
+//@   capture c = call(i.iter.Err, 0)
+//@   modifies nothing
+//@   ensures[forwards-source-error] c_called && ret0 == c_r0
